@@ -112,6 +112,120 @@ theorem clone_same_content {w : World} (inv : WInv w) {a b : Nat} {s : HStore}
       simpa only [World.step, ha, hb, hc] using h) (by simp [World.add])
   · rw [get_add_other _ _ hab]; exact ha
 
+/-- two term lists of the same length whose entries are pairwise `Term::eq` -/
+def TermsEq (ts ts' : List Term) : Prop := Pointwise (fun t t' => termEq t' t = true) ts ts'
+
+theorem TermsEq.get {ts ts' : List Term} (h : TermsEq ts ts') (i : Nat) :
+    (ts[i]? = none ∧ ts'[i]? = none) ∨ ∃ t t', ts[i]? = some t ∧ ts'[i]? = some t' ∧ termEq t' t = true := by
+  by_cases hi : i < ts.length
+  · have hi' : i < ts'.length := by rw [h.1]; exact hi
+    exact Or.inr ⟨ts[i], ts'[i], List.getElem?_eq_getElem hi, List.getElem?_eq_getElem hi',
+      h.2 i _ _ (List.getElem?_eq_getElem hi) (List.getElem?_eq_getElem hi')⟩
+  · have hi' : ¬ i < ts'.length := by rw [h.1]; exact hi
+    exact Or.inl ⟨List.getElem?_eq_none (Nat.le_of_not_lt hi), List.getElem?_eq_none (Nat.le_of_not_lt hi')⟩
+
+/-- names (optional terms) equal up to `Term::eq` -/
+def NameEq (a b : GName) : Prop := (a = none ∧ b = none) ∨ ∃ t t', a = some t ∧ b = some t' ∧ termEq t' t = true
+
+theorem nameEq_getName {max : Nat} {ts ts' : List Term} (h : TermsEq ts ts') (i : Nat) :
+    NameEq (getName max ts i) (getName max ts' i) := by
+  unfold getName
+  split
+  · exact Or.inl ⟨rfl, rfl⟩
+  · exact h.get i
+
+theorem quadEq_mk {s p o s' p' o' : Term} {g g' : GName} (e1 : termEq s' s = true) (e2 : termEq p' p = true)
+    (e3 : termEq o' o = true) (eg : NameEq g g') : quadEq ⟨s', p', o', g'⟩ ⟨s, p, o, g⟩ = true := by
+  rcases eg with ⟨rfl, rfl⟩ | ⟨t, t', rfl, rfl, e⟩
+  · simp [quadEq, e1, e2, e3, gnameEq]
+  · simp [quadEq, e1, e2, e3, gnameEq, e]
+
+theorem quadOfNames_eq {n : Nat} {a b : List GName} (hl : a.length = b.length)
+    (h : ∀ i, NameEq (a.getD i none) (b.getD i none)) :
+    (quadOfNames n a = none ∧ quadOfNames n b = none) ∨
+    ∃ q q', quadOfNames n a = some q ∧ quadOfNames n b = some q' ∧ quadEq q' q = true := by
+  have h0 := h 0; have h1 := h 1; have h2 := h 2; have h3 := h 3
+  unfold quadOfNames
+  by_cases hn : n = 4
+  · simp only [hn, if_true]
+    rcases a with _ | ⟨g, _ | ⟨s, _ | ⟨p, _ | ⟨o, _ | ⟨x, r⟩⟩⟩⟩⟩ <;>
+    rcases b with _ | ⟨g', _ | ⟨s', _ | ⟨p', _ | ⟨o', _ | ⟨x', r'⟩⟩⟩⟩⟩ <;>
+    simp at hl <;> try (left; simp; done)
+    · simp only [List.getD_cons_zero, List.getD_cons_succ] at h0 h1 h2 h3
+      rcases h1 with ⟨rfl, rfl⟩ | ⟨t1, t1', rfl, rfl, e1⟩
+      · left; simp
+      rcases h2 with ⟨rfl, rfl⟩ | ⟨t2, t2', rfl, rfl, e2⟩
+      · left; simp
+      rcases h3 with ⟨rfl, rfl⟩ | ⟨t3, t3', rfl, rfl, e3⟩
+      · left; simp
+      right
+      exact ⟨_, _, rfl, rfl, quadEq_mk e1 e2 e3 h0⟩
+  · simp only [hn, if_false]
+    rcases a with _ | ⟨s, _ | ⟨p, _ | ⟨o, _ | ⟨x, r⟩⟩⟩⟩ <;>
+    rcases b with _ | ⟨s', _ | ⟨p', _ | ⟨o', _ | ⟨x', r'⟩⟩⟩⟩ <;>
+    simp at hl <;> try (left; simp; done)
+    · simp only [List.getD_cons_zero, List.getD_cons_succ] at h0 h1 h2
+      rcases h0 with ⟨rfl, rfl⟩ | ⟨t1, t1', rfl, rfl, e1⟩
+      · left; simp
+      rcases h1 with ⟨rfl, rfl⟩ | ⟨t2, t2', rfl, rfl, e2⟩
+      · left; simp
+      rcases h2 with ⟨rfl, rfl⟩ | ⟨t3, t3', rfl, rfl, e3⟩
+      · left; simp
+      right
+      exact ⟨_, _, rfl, rfl, quadEq_mk e1 e2 e3 (Or.inl ⟨rfl, rfl⟩)⟩
+
+theorem filterMap_pointwise {α β : Type} {R : β → β → Prop} {f f' : α → Option β} (l : List α)
+    (h : ∀ x ∈ l, (f x = none ∧ f' x = none) ∨ ∃ q q', f x = some q ∧ f' x = some q' ∧ R q q') :
+    Pointwise R (l.filterMap f) (l.filterMap f') := by
+  induction l with
+  | nil => exact Pointwise.nil _
+  | cons x l ih =>
+    have ih' := ih (fun y hy => h y (List.mem_cons_of_mem _ hy))
+    rcases h x (List.mem_cons_self ..) with ⟨h1, h2⟩ | ⟨q, q', h1, h2, hr⟩
+    · simpa [List.filterMap_cons, h1, h2] using ih'
+    · simpa [List.filterMap_cons, h1, h2] using Pointwise.cons hr ih'
+
+/-- stores with the same rows over `Term::eq`-equal term lists enumerate `quadEq`-equal quads, in the same order -/
+theorem quads_eq_of_termsEq {v v' : St} (hs : v'.shape = v.shape) (hm : v'.max = v.max) (hi : v'.idx = v.idx)
+    (ht : TermsEq v.terms v'.terms) :
+    Pointwise (fun q q' => quadEq q' q = true) (Store.quads v) (Store.quads v') := by
+  unfold Store.quads
+  rw [hi, hs]
+  apply filterMap_pointwise
+  intro c _
+  apply quadOfNames_eq
+  · simp [namesOfRow, hs]
+  · intro i
+    by_cases hin : i < v.shape.n
+    · simp only [namesOfRow, hs, hm, List.getD_eq_getElem?_getD, List.getElem?_map,
+        List.getElem?_range hin, Option.map_some, Option.getD_some]
+      split
+      · exact nameEq_getName ht _
+      · exact ht.get _
+    · have hge : v.shape.n ≤ i := Nat.le_of_not_lt hin
+      simp [namesOfRow, hs, List.getD_eq_getElem?_getD, hge, NameEq]
+
+theorem termsEq_of_sameRead {h : Heap.Heap} {ts ts' : List TermRef} (hp : Pointwise (SameRead h) ts ts') :
+    TermsEq (ts.map (keyTerm h)) (ts'.map (keyTerm h)) := by
+  refine ⟨by simp [hp.1], fun i t t' h1 h2 => ?_⟩
+  simp only [List.getElem?_map, Option.map_eq_some_iff] at h1 h2
+  obtain ⟨r, hr, rfl⟩ := h1
+  obtain ⟨r', hr', rfl⟩ := h2
+  obtain ⟨x, x', hx, hx', e⟩ := hp.2 i r r' hr hr'
+  simpa [keyTerm, hx, hx'] using e
+
+/-- `clone_independent`, part 1 at the level of the API: right after `clone`, iterating the clone
+(`quads()` / `triples()`; `get_term(0..len)` for a bare index) yields, position by position,
+`Term::eq`-equal terms / quads to what iterating the original yields. -/
+theorem clone_same_quads {w : World} (inv : WInv w) {a b : Nat} {s : HStore}
+    (ha : w.get a = some s) (hb : w.get b = none) :
+    ∃ w' c, World.step .manual w (.clone a b) = (w', .ok) ∧ w'.get b = some c ∧ w'.get a = some s ∧
+      TermsEq (s.ix.i2t.map (keyTerm w'.heap)) (c.ix.i2t.map (keyTerm w'.heap)) ∧
+      Pointwise (fun q q' => quadEq q' q = true) (Store.quads (s.view w'.heap)) (Store.quads (c.view w'.heap)) := by
+  obtain ⟨w', c, h1, h2, h3, h4, h5, h6, h7⟩ := clone_same_content inv ha hb
+  have ht := termsEq_of_sameRead h7
+  exact ⟨w', c, h1, h2, h3, ht, quads_eq_of_termsEq h5 h6 h4 ht⟩
+
 /-- `clone_independent`, part 2 (afterwards): an operation that does not name a store changes neither
 which value the name is bound to nor what any of its entries reads — whatever happens to the
 others: mutation, growth, drop of the original or of the clone, moves. -/
